@@ -211,14 +211,22 @@ def r2(R):
                 continue
             # the block entered when `isinstance(<x>, bytes)` is false
             for atoms, block in if_branches(x):
-                if not any(isinstance(e, ast.Call) and isinstance(
-                        e.func, ast.Name) and e.func.id == 'isinstance' and
-                        len(e.args) == 2 and 'bytes' in ast.unparse(
-                            e.args[1]) and not truth for e, truth in atoms):
+                tested = [ast.dump(e.args[0]) for e, truth in atoms
+                          if isinstance(e, ast.Call) and isinstance(
+                              e.func, ast.Name) and e.func.id == 'isinstance'
+                          and len(e.args) == 2 and 'bytes' in ast.unparse(
+                              e.args[1]) and not truth]
+                if not tested:
                     continue
+                # ... re-binds the SAME value it tested to its bytes form
                 for y in block:
-                    for c in ast.walk(y):
-                        if isinstance(c, ast.Call) and dotted(c.func) and (
+                    if not isinstance(y, ast.Assign):
+                        continue
+                    tg = [t for t in y.targets if ast.dump(
+                        t).replace('Store()', 'Load()') in tested]
+                    for c in ast.walk(y.value):
+                        if tg and isinstance(c, ast.Call) and dotted(
+                                c.func) and (
                                 (dotted(c.func)[-1] == 'encode' and c.args
                                  and isinstance(c.args[0], ast.Constant) and
                                  c.args[0].value == 'ascii') or
